@@ -197,9 +197,10 @@ pub fn programs() -> Vec<(String, Program)> {
         let a = Src::Prim("u8");
         let b = Src::Prim("u16");
         let c = Src::Prim("u32");
+        // the instantiation that shares no argument with the others comes first
         let roots = vec![
-            Src::App(0, vec![b.clone(), c.clone()]),
             Src::App(0, vec![Src::Prim("bool"), Src::Prim("char")]),
+            Src::App(0, vec![b.clone(), c.clone()]),
             Src::App(0, vec![a.clone(), b.clone()]),
             Src::App(0, vec![c.clone(), a.clone()]),
         ];
